@@ -171,6 +171,18 @@ type Sys struct {
 	testIterBlock     func(job string, count int64)
 }
 
+// StartedJobs lists the jobs this runner instance started
+func (s *Sys) StartedJobs() []string {
+	s.mu.Lock()
+	defer s.mu.Unlock()
+	var out []string
+	for id := range s.started {
+		out = append(out, id)
+	}
+	sort.Strings(out)
+	return out
+}
+
 // WasStarted reports whether the job was started by this runner instance
 func (s *Sys) WasStarted(job string) bool {
 	s.mu.Lock()
